@@ -515,7 +515,17 @@ func checkDocument(c *hx.Ctx, format string, d Doc, o rag.MarkdownOptions, md st
 	}
 	c.Check("C15/list-order", okOrder, kase, func() string { return format + " " + via + ": " + detail + "\n" + show() })
 	if okOrder {
-		c.Check("C15/list-depth", okDepth, kase, func() string { return format + " " + via + ": " + detail + "\n" + show() })
+		dkey := "C15/list-depth"
+		if format == ragFormat {
+			// own failure class: documents with a list whose first item is nested (createListChunk used to
+			// trim that item's indentation away: fixed in the worktree, efed37d)
+			for _, b := range d.Blocks {
+				if b.Kind == "list" && len(b.Items) > 0 && b.Items[0].Depth > 0 {
+					dkey = "C15/list-depth-ragdoc-first-item-nested"
+				}
+			}
+		}
+		c.Check(dkey, okDepth, kase, func() string { return format + " " + via + ": " + detail + "\n" + show() })
 		c.Check("C15/list-kind", okKind, kase, func() string { return format + " " + via + ": " + detail + "\n" + show() })
 		for i, g := range got.Items {
 			if g.Depth == wantI[i].Depth && g.Ordered == wantI[i].Ordered {
